@@ -16,6 +16,8 @@ type VerifEvent struct {
 	Group string
 	// Cmd is the executable of the command line execution, if any.
 	Cmd string
+	// Args are the arguments of the command line execution, if any.
+	Args []string
 	// Stdin is the input passed to the command line execution, if any.
 	Stdin string
 	// Err is the error observed at the point, if any.
@@ -47,6 +49,7 @@ func verifPoint(kind string, group interface{}, exec *cmdExecution, err error) {
 	}
 	if exec != nil {
 		ev.Cmd = exec.cmd
+		ev.Args = exec.args
 		ev.Stdin = exec.stdin
 	}
 	f(ev)
